@@ -15,6 +15,7 @@ import (
 	"github.com/ipfs/go-cid"
 	cidlink "github.com/ipld/go-ipld-prime/linking/cid"
 	"github.com/klauspost/compress/zstd"
+	"github.com/rpcpool/yellowstone-faithful/compactindexsized"
 	"github.com/rpcpool/yellowstone-faithful/ipld/ipldbindcode"
 	"github.com/rpcpool/yellowstone-faithful/iplddecoders"
 	"github.com/rpcpool/yellowstone-faithful/third_party/solana_proto/confirmed_block"
@@ -567,6 +568,12 @@ type decodedEntry struct {
 	df *ipldbindcode.DataFrame
 }
 
+// notInArchive is the error a frame that is in no index produces in the server: the error chain of
+// Epoch.GetDataFrameByCid -> GetNodeByCid -> index lookup, ending in the index's own "not found".
+func notInArchive(wanted cid.Cid) error {
+	return fmt.Errorf("failed to find node by cid %s: %w", wanted, fmt.Errorf("failed to find offset for CID %s: %w", wanted, compactindexsized.ErrNotFound))
+}
+
 // Getter serves the stored frames of the views the way Epoch.GetDataFrameByCid does after its index
 // lookup: find by CID, decode with the repository's DecodeDataFrame.  cache may be nil.
 func Getter(cache Decoded, fetched *int, views ...*View) func(ctx context.Context, wanted cid.Cid) (*ipldbindcode.DataFrame, error) {
@@ -578,7 +585,7 @@ func Getter(cache Decoded, fetched *int, views ...*View) func(ctx context.Contex
 		k := wanted.KeyString()
 		for _, v := range views {
 			if v.Missing[k] {
-				return nil, fmt.Errorf("c14: frame %s is not in the archive", wanted)
+				return nil, notInArchive(wanted)
 			}
 		}
 		for _, v := range views {
@@ -597,7 +604,7 @@ func Getter(cache Decoded, fetched *int, views ...*View) func(ctx context.Contex
 			}
 			return df, err
 		}
-		return nil, fmt.Errorf("c14: frame %s is not in the archive", wanted)
+		return nil, notInArchive(wanted)
 	}
 }
 
